@@ -38,4 +38,6 @@ extern struct op_entry ops_tables[];
 void tables_reset(void);
 extern struct op_entry ops_frame[];
 void frame_reset(void);
+extern struct op_entry ops_scale[];
+void scale_reset(void);
 #endif
